@@ -56,6 +56,10 @@ def _check_gate(ctx, rule, fn, sink, sink_name, gate_name, gate, bypass=(), why=
 
 def run(ctx):
     db = ctx.db
+    # the legality tests read attributes (reference category, constness, ...) off resolved types: a type that is rebuilt
+    # while being resolved must keep them
+    from .C06 import rebuild_rules
+    rebuild_rules(ctx, "R04.7", only_types=True)
     ctx.rule("R04.1", "every export sink of a scan_* function is unreachable once the edges establishing `file is S_local` / `_vis <= min_vis` are removed")
     ctx.rule("R04.2", "member export in define_struct_type/define_method (and free functions in scan_function) is behind the file, deleted/static, visibility and involves_*/ignore* gates; force_publish only for the two documented public cases")
     ctx.rule("R04.3", "involves_unpublished/involves_protected/involves_rvalue_reference/in_ignoreinvolved recurse through const, reference, pointer, typedef and function (return + parameters) wrappers")
